@@ -23,7 +23,8 @@ Model of the caches of py-pde (property C04).  Core Lean only.
       (`_cache_hash`), `BoundariesList -> BoundaryPair/BoundaryPeriodic -> BCBase`
       subclasses with their instance attributes, `OperatorInfo`, dtype, kwargs.
 (v)   cached helpers that captured a buffer identity (`make_interpolator`, and the prepared
-      right-hand side of a `PDE` with a field-valued constant).
+      right-hand side of a `PDE` with a field-valued constant), and the numba-compiled
+      right-hand side, which carries a COPY of the constant's content made at compile time.
 -/
 namespace PdeVerif.Cache
 
@@ -400,7 +401,7 @@ when its right-hand side was prepared (`PDE._prepare_cache`).  The heap maps buf
 contents. -/
 
 section Heap
-variable {κ V : Type} [DecidableEq κ]
+variable {κ V : Type} [DecidableEq κ] [DecidableEq V]
 
 structure FieldSt (κ V : Type) where
   /-- heap: buffer id ↦ content (abandoned buffers stay alive: the helpers keep references) -/
@@ -411,9 +412,13 @@ structure FieldSt (κ V : Type) where
   next : Nat
   /-- `_cache_methods["make_interpolator"]`: key ↦ captured buffer id -/
   helpers : List (κ × Nat)
-  /-- `PDE._cache[backend]` of a PDE using the field as a constant: the captured buffer id
-  (`none`: not prepared yet) -/
+  /-- `PDE._cache["numpy"]` of a PDE using the field as a constant: the captured buffer id
+  (`none`: not prepared yet); the interpreted rhs reads the live array -/
   pde : Option Nat
+  /-- `PDE._cache["numba"]` of the same PDE: the buffer id seen when the rhs was compiled and the
+  CONTENT the buffer had at that moment (numba freezes closure arrays: the compiled function
+  carries a copy) -/
+  pdeJit : Option (Nat × V) := none
 
 inductive HEv (κ V : Type) where
   /-- `f.data[...] = v` / `f.data = v`: in-place write into the current buffer -/
@@ -429,17 +434,26 @@ inductive HEv (κ V : Type) where
   | interp (k : κ)
   /-- `eq.evolution_rate(state)` of a PDE that has `f` as a constant: what the rate reads -/
   | rate
+  /-- `eq.make_pde_rhs(state, backend="numba")(data, t)` of the same PDE with the JIT enabled:
+  what the compiled rate reads -/
+  | rateJit
 deriving Repr
 
-/-- which of the two repairs are present: `inval` = the `_data_full` setter drops
-`_cache_methods` when the array object changes (fix F2); `check` = `_prepare_cache` compares
-the identity of the constant's data array (fix C) -/
+/-- which repairs are present: `inval` = the `_data_full` setter drops `_cache_methods` when the
+array object changes (fix F2); `check` = `_prepare_cache` compares the identity of the constant's
+data array (fix C); `content` = `_prepare_cache` of a compiling backend also compares the
+constant's content with the copy it compiled in (proposed fix E,
+`notes/proposed_fixes/C04-frozen-const.diff`) -/
 structure HeapFix where
   inval : Bool
   check : Bool
+  content : Bool := false
 deriving Repr, DecidableEq
 
-def HeapFix.cur : HeapFix := ⟨true, true⟩
+/-- the code as it is now -/
+def HeapFix.cur : HeapFix := ⟨true, true, false⟩
+/-- with the proposed fix E -/
+def HeapFix.fixE : HeapFix := ⟨true, true, true⟩
 
 /-- rebinding `_data_full` to another array object -/
 def rebind (fx : HeapFix) (s : FieldSt κ V) (v : V) : FieldSt κ V :=
@@ -465,6 +479,16 @@ def hstep (fx : HeapFix) (s : FieldSt κ V) : HEv κ V → FieldSt κ V × Optio
       if fx.check && b != s.cur then ({ s with pde := some s.cur }, some (s.bufs s.cur))
       else (s, some (s.bufs b))
     | none => ({ s with pde := some s.cur }, some (s.bufs s.cur))
+  | .rateJit =>
+    match s.pdeJit with
+    | some (b, c) =>
+      -- `_prepare_cache`: prepared again (compiled again) iff the array object changed (fix C) or,
+      -- with fix E, the content differs from the compiled-in copy; otherwise the compiled function
+      -- returns what it froze
+      if (fx.check && b != s.cur) || (fx.content && decide (c ≠ s.bufs s.cur)) then
+        ({ s with pdeJit := some (s.cur, s.bufs s.cur) }, some (s.bufs s.cur))
+      else (s, some c)
+    | none => ({ s with pdeJit := some (s.cur, s.bufs s.cur) }, some (s.bufs s.cur))
 
 /-- the values returned by the interpolations and rates of a history -/
 def hrun (fx : HeapFix) : FieldSt κ V → List (HEv κ V) → List V
@@ -483,10 +507,11 @@ def href : V → List (HEv κ V) → List V
   | c, .assignSame :: es => href c es
   | c, .interp _ :: es => c :: href c es
   | c, .rate :: es => c :: href c es
+  | c, .rateJit :: es => c :: href c es
 
 /-- a freshly created field with content `v` -/
 def newField (v : V) : FieldSt κ V :=
-  { bufs := fun _ => v, cur := 0, next := 1, helpers := [], pde := none }
+  { bufs := fun _ => v, cur := 0, next := 1, helpers := [], pde := none, pdeJit := none }
 
 end Heap
 
